@@ -477,6 +477,127 @@ theorem pathsOk_some (T : Table) (k : LockKind) (nm : String) (ls : List (List L
       simp only [hi, hx, Bool.and_eq_true, List.all_eq_true] at h2
       exact ⟨m, x, rfl, hx, h2.1, by simpa using h2.2 l hl⟩
 
+/-! ## several lifecycles alive at once -/
+
+theorem run_append (cfg : Cfg) : ∀ (a : List Op) (s : State) (b : List Op),
+    run cfg s (a ++ b) = run cfg (run cfg s a) b := by
+  intro a
+  induction a with
+  | nil => intro s b; rfl
+  | cons x xs ih => intro s b; simp only [List.cons_append, run]; exact ih _ _
+
+theorem initAt_eq (cfg : Cfg) (t : Nat) : initAt cfg t = run cfg (init cfg) [.adv t] := by
+  simp [initAt, init, run, step]
+
+theorem lookup_advAll (us k : Nat) : ∀ l : List (Nat × Inst),
+    (advAll us l).lookup k = (l.lookup k).map fun i => ⟨i.cfg, (step i.cfg i.st (.adv us)).st⟩ := by
+  intro l
+  induction l with
+  | nil => rfl
+  | cons x xs ih =>
+    obtain ⟨k', i⟩ := x
+    simp only [advAll, List.lookup_cons]
+    cases k == k' <;> simp [ih]
+
+/-- reachable from a freshly constructed lifecycle by some history of its own -/
+def Reach (i : Inst) : Prop := ∃ ops, i.st = run i.cfg (init i.cfg) ops
+
+theorem reach_step (i : Inst) (op : Op) (h : Reach i) : Reach ⟨i.cfg, (step i.cfg i.st op).st⟩ := by
+  obtain ⟨ops, h⟩ := h
+  refine ⟨ops ++ [op], ?_⟩
+  simp only [run_append, run, ← h]
+
+theorem reach_advAll (us : Nat) : ∀ l : List (Nat × Inst), (∀ x ∈ l, Reach x.2) → ∀ x ∈ advAll us l, Reach x.2 := by
+  intro l
+  induction l with
+  | nil => intro _ x hx; simp [advAll] at hx
+  | cons y ys ih =>
+    obtain ⟨k, i⟩ := y
+    intro h x hx
+    simp only [advAll, List.mem_cons] at hx
+    rcases hx with rfl | hx
+    · exact reach_step i (.adv us) (h (k, i) (by simp))
+    · exact ih (fun z hz => h z (by simp [hz])) x hx
+
+theorem reach_stepW (w : World) (x : WOp) (h : ∀ y ∈ w.insts, Reach y.2) : ∀ y ∈ (stepW w x).1.insts, Reach y.2 := by
+  cases x with
+  | new k cfg =>
+    intro y hy
+    simp only [stepW, List.mem_cons] at hy
+    rcases hy with rfl | hy
+    · exact ⟨[.adv w.now], initAt_eq cfg w.now⟩
+    · exact h y hy
+  | adv us => exact reach_advAll us _ h
+  | on k op =>
+    simp only [stepW]
+    cases op.isAdv with
+    | some us => exact reach_advAll us _ h
+    | none =>
+      simp only
+      cases hl : w.insts.lookup k with
+      | none => exact h
+      | some i =>
+        intro y hy
+        simp only [List.mem_cons] at hy
+        rcases hy with rfl | hy
+        · have : (k, i) ∈ w.insts := by
+            have := List.lookup_eq_some_iff.mp hl
+            grind
+          exact reach_step i op (h _ this)
+        · exact h y hy
+
+theorem reach_runW : ∀ (ws : List WOp) (w : World), (∀ y ∈ w.insts, Reach y.2) → ∀ y ∈ (runW w ws).insts, Reach y.2 := by
+  intro ws
+  induction ws with
+  | nil => intro w h; exact h
+  | cons x xs ih => intro w h; exact ih _ (reach_stepW w x h)
+
+/-- the lifecycle in slot `k` after a world history during which slot `k` is not re-constructed: exactly what its
+    own calls and the clock advances make of it -/
+theorem independent_runW (k : Nat) : ∀ (ws : List WOp) (w : World) (i : Inst), w.insts.lookup k = some i →
+    (∀ c, WOp.new k c ∉ ws) → (runW w ws).insts.lookup k = some ⟨i.cfg, run i.cfg i.st (proj k ws)⟩ := by
+  intro ws
+  induction ws with
+  | nil => intro w i h _; simpa [runW, proj, run] using h
+  | cons x xs ih =>
+    intro w i h hn
+    have hn' : ∀ c, WOp.new k c ∉ xs := fun c hc => hn c (by simp [hc])
+    cases x with
+    | new k' cfg =>
+      have hk : k ≠ k' := by
+        intro e; subst e; exact hn cfg (by simp)
+      simp only [runW, proj]
+      refine ih _ i ?_ hn'
+      have hb : (k == k') = false := by simp [hk]
+      simp [stepW, List.lookup_cons, hb, h]
+    | adv us =>
+      simp only [runW, proj, run]
+      refine ih _ ⟨i.cfg, (step i.cfg i.st (.adv us)).st⟩ ?_ hn'
+      simp [stepW, advW, lookup_advAll, h]
+    | on k' op =>
+      simp only [runW, proj, stepW]
+      cases hop : op.isAdv with
+      | some us =>
+        have : op = .adv us := by cases op <;> simp_all [Op.isAdv]
+        subst this
+        simp only [run]
+        refine ih _ ⟨i.cfg, (step i.cfg i.st (.adv us)).st⟩ ?_ hn'
+        simp [advW, lookup_advAll, h]
+      | none =>
+        simp only
+        by_cases hk : k' = k
+        · subst hk
+          simp only [h, if_true, run]
+          refine ih _ ⟨i.cfg, (step i.cfg i.st op).st⟩ ?_ hn'
+          simp
+        · simp only [hk, if_false]
+          cases hl : w.insts.lookup k' with
+          | none => exact ih _ i h hn'
+          | some j =>
+            refine ih _ i ?_ hn'
+            have : (k == k') = false := by simp [Ne.symm hk]
+            simp [List.lookup_cons, this, h]
+
 /-! ## vocabulary for the agreement with the translated source -/
 
 /-- what a call of the hand-written automaton yields after the callbacks `evs` already emitted, in the format of
